@@ -232,7 +232,7 @@ def main(argv=None):
         rep.add_results(nm, mine, sum(1 for it in items if it["section"] == si) - len(mine), exhaustive=(si == 0 or (si == 1 and not q)))
     rep.extra["graphs_decided"] = sum(r.get("graphs", 0) for r in res)
     import superrec2.utils.toposort as T
-    rep.functions = R.source_digest(T.toposort, T.toposort_all, T._toposort_all_bt, _make_prec_graph)
+    rep.functions = R.safe_digest(lambda: R.source_digest(T.toposort, T.toposort_all, T._toposort_all_bt, _make_prec_graph))
     rep.bounds = {"graphs": "every digraph on <= 3 vertices; " + ("1500 seeded" if q else "all 65536") + " digraphs on 4 vertices (self-loops included); seeded digraphs on 5-7 vertices",
                   "precedence graphs": "seeded leaf-synteny sets over 2-5 families, 1-4 leaves, 25% with inconsistent orders"}
     rep.assumptions = ["the graph itself is enumerated; the solver decides membership, distinctness and completeness of the returned SET of orderings",
